@@ -219,13 +219,23 @@ def r13c(run):
                   necessity="fields missing from the iteration are missing from properties / required")
     key = unparse(loops[0].stmt.target.elts[0]) if isinstance(loops[0].stmt.target, ast.Tuple) else None
     fld = unparse(loops[0].stmt.target.elts[1]) if isinstance(loops[0].stmt.target, ast.Tuple) else None
+    # the published containers are found by role: data.update(required=<R>, properties=<P>, dependentRequired=<D>)
+    published = {}
+    for n, c in ga.all_calls():
+        if call_attr(c) == "update" and unparse(c.func.value) == "data":
+            for kw in c.keywords:
+                if kw.arg in ("required", "properties", "dependentRequired") and isinstance(kw.value, ast.Name):
+                    published[kw.arg] = kw.value.id
+    R, P_, D = published.get("required"), published.get("properties"), published.get("dependentRequired")
+    if not (R and P_):
+        raise AnalysisError("generate_for_dataclass: published `required` / `properties` containers not found")
     req_appends = []
     for n, c in ga.all_calls():
-        if call_attr(c) == "append" and unparse(c.func.value) == "required":
+        if call_attr(c) == "append" and unparse(c.func.value) == R:
             req_appends.append((n, c))
     run.floor("R13c", "required.append sites", len(req_appends), 1)
     pstores = [n for n in ga.cfg.nodes if n.kind == "stmt" and isinstance(n.ast, ast.Assign)
-               and isinstance(n.ast.targets[0], ast.Subscript) and unparse(n.ast.targets[0].value) == "properties"]
+               and isinstance(n.ast.targets[0], ast.Subscript) and unparse(n.ast.targets[0].value) == P_]
     run.floor("R13c", "properties stores", len(pstores), 1)
     pkeys = {unparse(n.ast.targets[0].slice) for n in pstores}
     for n in pstores:
@@ -267,7 +277,7 @@ def r13c(run):
                       construct="is_required options", message=f"`{unparse(c)}` does not pass the view's options",
                       necessity="mode / ignore_required of the class are ignored when computing `required`", node=c)
     dep = [n for n in ga.cfg.nodes if n.kind == "stmt" and isinstance(n.ast, ast.Assign)
-           and isinstance(n.ast.targets[0], ast.Subscript) and unparse(n.ast.targets[0].value) == "dependent_required"]
+           and isinstance(n.ast.targets[0], ast.Subscript) and D and unparse(n.ast.targets[0].value) == D]
     ok = bool(dep) and all(unparse(n.ast.targets[0].slice) == key and "dependencies" in unparse(n.ast.value) for n in dep)
     run.check("R13c", g, "dependentRequired maps the property key to the field's dependencies", ok,
               construct="dependentRequired", message="generate_for_dataclass no longer emits dependent_required[name] = "
